@@ -43,4 +43,25 @@ Edges2(desc, shp, a, d, variant) == [ i \in 0..shp[a] |-> 2 * d * i - shp[Origin
 \* (first minimum), as RectilinearGrid.coord_to_index does
 Dist2(e, i, x2) == IF e[i] >= x2 THEN e[i] - x2 ELSE x2 - e[i]
 NearestEdge(e, n, x2) == CHOOSE i \in 0..n : \A j \in 0..n : Dist2(e, i, x2) < Dist2(e, j, x2) \/ (Dist2(e, i, x2) = Dist2(e, j, x2) /\ i <= j)
+
+\* ---------- placement through partial_real_position (relative to the DOMAIN CENTRE) ----------
+\* Each description may sit anywhere in space: its edges are Edges2 shifted by the centre coordinate c2 (half units).
+\* fdtd/initialization.py::_center_to_bounds_for_grid: target = rel + (e[0] + e[n]) / 2, then
+\* RectilinearGrid.bounds_for_center: the interval [lower, lower+size) whose centre is nearest (first minimum).
+\* variant "center_nonuniform_only": the domain-centre term is added only for non-uniform grids, i.e. never here
+ShiftedEdges2(desc, shp, a, d, c2, variant) == [ i \in 0..shp[a] |-> Edges2(desc, shp, a, d, variant)[i] + c2 ]
+DomainCentre2(e, n) == (e[0] + e[n]) \div 2
+IntervalCentre2(e, lo, size) == (e[lo] + e[lo + size]) \div 2
+AbsV(x) == IF x < 0 THEN -x ELSE x
+BoundsForCentre(e, n, size, target2) ==
+    CHOOSE lo \in 0..(n - size) :
+        \A l2 \in 0..(n - size) :
+            \/ AbsV(IntervalCentre2(e, lo, size) - target2) < AbsV(IntervalCentre2(e, l2, size) - target2)
+            \/ (AbsV(IntervalCentre2(e, lo, size) - target2) = AbsV(IntervalCentre2(e, l2, size) - target2) /\ lo <= l2)
+\* lower bound resolved for an object of `size` cells whose centre is requested at rel2 (relative to the domain centre)
+PlaceByCentre(e, n, size, rel2, variant) ==
+    BoundsForCentre(e, n, size, IF variant = "center_nonuniform_only" THEN rel2 ELSE rel2 + DomainCentre2(e, n))
+\* the request that means "cells lo .. lo+size-1" on a domain of n cells of width d: interval centre relative to the
+\* domain centre (exact interval centre: never a tie)
+RelCentre2(lo, size, n, d) == d * (2 * lo + size) - n * d
 =============================================================================
